@@ -24,6 +24,7 @@ func init() {
 			"D4 a comparator of keys taken from a map that compares a location's line also compares its file and column (sort.Slice closures and Less methods, accessors looked through). " +
 			"D5 a sort.Slice comparator that indexes a slice with its parameters indexes the slice being sorted. " +
 			"D1 (round 8) also: storing the accumulated slice into a field of the receiver makes every return a use (sort first); a returned freshly allocated value counts as loop-variant when a field of it was stored with a loop-variant value; LazyArgumentMap.ValidateInputs/ValidateOutputs are entry points. " +
+			"D1 (round 9): the triage of walkExp's map loop is re-validated - every visitor passed to WalkExp returns nil or SkipExp only. " +
 			"NOT decided: order dependence through pointer identity, whether a comparator is a total order on the values it meets (only the sibling contradiction is), stability of topoSort.",
 		Assumptions: commonAssumptions,
 	}
@@ -131,7 +132,7 @@ var c10Triage = map[string]triage{
 	"getUnknownKeys#range(v.(*MapExp)#0.Value)":        {"append", "the only caller, expandForkFromObj, sorts the returned slice in place (sort.Strings) before any fork id is built; part.Range shares that backing array and is only used for membership and length", callerSorts("(*Fork).expandForkFromObj")},
 	"getUnknownKeys#range(v.(MarshalerMap)#0)":         {"append", "see getUnknownKeys (MapExp arm)", callerSorts("(*Fork).expandForkFromObj")},
 	"getUnknownKeys#range(v.(LazyArgumentMap)#0)":      {"append", "see getUnknownKeys (MapExp arm)", callerSorts("(*Fork).expandForkFromObj")},
-	"walkExp#range(exp.(*MapExp)#0.Value)":             {"first-match-return", "only an error returned by the visitor is passed on; the one visitor in the repository (graph.addEdgeBindings, reached from `mro graph`) inserts into a set and returns nil or SkipExp, so there is no error whose choice could depend on the order", nil},
+	"walkExp#range(exp.(*MapExp)#0.Value)":             {"first-match-return", "only an error returned by the visitor is passed on; every visitor handed to WalkExp in the program (today: graph.addEdgeBindings, reached from `mro graph`) returns nil or SkipExp only, so there is no error - and no early stop - whose choice could depend on the order (re-validated: the returns of every function value passed to WalkExp)", visitorsNeverStopTheWalk},
 	"getUnknownKeys#range(local:m)":                    {"append", "see getUnknownKeys (MapExp arm)", callerSorts("(*Fork).expandForkFromObj")},
 }
 
@@ -577,4 +578,71 @@ func stdSortArg(c ssa.CallInstruction) (ssa.Value, bool) {
 		}
 	}
 	return nil, false
+}
+
+// visitorsNeverStopTheWalk re-validates the triage of walkExp's map loop: every function value
+// that the program passes to WalkExp / walkExp returns only nil or the SkipExp sentinel.  A visitor
+// that returns another error stops the walk at the first element it meets - in map order (round 9:
+// a `firstRef` helper built on WalkExp made the reference named in an error text vary).
+func visitorsNeverStopTheWalk(c *an.Ctx, l *an.MapLoop, cfg *an.OrderConfig) (bool, string) {
+	p := c.P
+	walk := p.Func(pkgSyntax, "WalkExp")
+	inner := l.Fn
+	skip := p.Global(pkgSyntax, "SkipExp")
+	n := 0
+	bad := ""
+	check := func(target *ssa.Function) {
+		for caller, sites := range p.Callers(target) {
+			if caller == inner || caller == walk {
+				continue // the recursion and the exported wrapper pass their own parameter on
+			}
+			for _, s := range sites {
+				args := s.Common().Args
+				if len(args) < 2 {
+					continue
+				}
+				n++
+				var fv *ssa.Function
+				switch x := args[1].(type) {
+				case *ssa.MakeClosure:
+					fv, _ = x.Fn.(*ssa.Function)
+				case *ssa.Function:
+					fv = x
+				case *ssa.ChangeType:
+					switch y := x.X.(type) {
+					case *ssa.MakeClosure:
+						fv, _ = y.Fn.(*ssa.Function)
+					case *ssa.Function:
+						fv = y
+					}
+				}
+				if fv == nil || fv.Blocks == nil {
+					bad = "a visitor passed in " + an.FnName(caller) + " is not a function literal or named function"
+					continue
+				}
+				an.Instrs(fv, func(in ssa.Instruction) {
+					r, ok := in.(*ssa.Return)
+					if !ok || len(r.Results) != 1 {
+						return
+					}
+					v := an.RetVal(r, 0)
+					if an.IsNil(v) {
+						return
+					}
+					if u, ok := v.(*ssa.UnOp); ok && skip != nil && u.X == ssa.Value(skip) {
+						return
+					}
+					bad = "the visitor " + an.FnName(fv) + " passed in " + an.FnName(caller) + " can return an error other than SkipExp: the walk stops at the first element it meets in map order"
+				})
+			}
+		}
+	}
+	if walk != nil {
+		check(walk)
+	}
+	check(inner)
+	if bad != "" {
+		return false, bad
+	}
+	return n > 0, "no call of WalkExp with a visitor found"
 }
